@@ -232,6 +232,10 @@ pub struct Model {
     /// scopes whose stack/queue limits were hit
     pub scope_limit_hits: u32,
     pub stack_limit_hits: u32,
+    /// nodes of enter_on_poll adapters: one record per poll, all with the adapter's name
+    pub poll_nodes: Vec<u32>,
+    /// poll ops that completed their task
+    pub final_polls: Vec<OpRef>,
 }
 
 type R = Result<(), String>;
@@ -266,6 +270,8 @@ impl Model {
             mixed_sampled_parents: 0,
             scope_limit_hits: 0,
             stack_limit_hits: 0,
+            poll_nodes: vec![],
+            final_polls: vec![],
         }
     }
 
@@ -1093,7 +1099,137 @@ impl Model {
         Ok(())
     }
 
-    fn apply_async(&mut self, _op: OpRef, _t: u8, _o: &Op, _inner: &[Op], _idx: usize, _is_inner: bool) -> R {
-        err("not supported yet")
+    fn apply_async(&mut self, op: OpRef, t: u8, o: &Op, inner: &[Op], idx: usize, is_inner: bool) -> R {
+        if is_inner {
+            return err("no async ops inside closures or poll bodies");
+        }
+        match o {
+            Op::NewTask { task, wrap, span } => {
+                self.empty_slot(*task)?;
+                let needs_span = !matches!(wrap, Wrap::EnterOnPoll);
+                if needs_span != span.is_some() {
+                    return err("span / wrap mismatch");
+                }
+                let sp = match span {
+                    Some(s) => match std::mem::replace(self.slot(*s), SlotM::Gone) {
+                        SlotM::Span(sp) => Some(sp),
+                        other => {
+                            *self.slot(*s) = other;
+                            return err("no live span for the task");
+                        }
+                    },
+                    None => None,
+                };
+                let name = span_name(self.str_seed, op);
+                self.nodes.insert(op, (name, true, t));
+                *self.slot(*task) = SlotM::Task(TaskM {
+                    wrap: wrap.clone(),
+                    span: sp,
+                    node: op,
+                    done: false,
+                });
+            }
+            Op::Poll { task, kind, ready } => {
+                let tk = match self.slot_ref(*task) {
+                    SlotM::Task(tk) => tk.clone(),
+                    _ => return err("no task in slot"),
+                };
+                if tk.done {
+                    return err("task already completed");
+                }
+                let ok_kind = match tk.wrap {
+                    Wrap::InSpan | Wrap::EnterOnPoll | Wrap::InSpanEnterOnPoll => *kind == PollKind::Poll,
+                    Wrap::Stream => matches!(kind, PollKind::PollNext | PollKind::PollNextItem),
+                    Wrap::Sink => matches!(kind, PollKind::PollReady | PollKind::StartSend | PollKind::PollFlush | PollKind::PollClose),
+                };
+                if !ok_kind {
+                    return err("poll kind does not fit the task");
+                }
+                let depth = self.threads[t as usize].stack.len();
+                // in_span: the span is the local parent during the call
+                let mut guard_pushed = false;
+                if let Some(sp) = &tk.span {
+                    if sp.recording && self.threads[t as usize].scopes.len() < STACK_CAP {
+                        let token = Model::issue(sp);
+                        let sampled = token.iter().any(|i| i.sampled);
+                        self.threads[t as usize].scopes.push(Scope {
+                            token: Some(token),
+                            sampled,
+                            entries: vec![],
+                            open: vec![],
+                            open_op: op,
+                            of_span: Some(sp.node),
+                        });
+                        self.threads[t as usize].stack.push(LH::Guard { real: true });
+                    } else {
+                        self.threads[t as usize].stack.push(LH::Guard { real: false });
+                    }
+                    guard_pushed = true;
+                }
+                // enter_on_poll: one local span per poll, named like the task
+                let mut eop = false;
+                if matches!(tk.wrap, Wrap::EnterOnPoll | Wrap::InSpanEnterOnPoll) {
+                    let name = span_name(self.str_seed, tk.node);
+                    let mut node = None;
+                    if let Some(sc) = self.top_scope(t) {
+                        if sc.sampled && sc.entries.len() < QUEUE_CAP {
+                            let parent = sc.open.last().copied();
+                            sc.entries.push(Entry::Span {
+                                node: tk.node,
+                                parent,
+                                name,
+                                props: vec![],
+                                begin: op,
+                                end: None,
+                            });
+                            sc.open.push(tk.node);
+                            node = Some(tk.node);
+                        }
+                    }
+                    self.threads[t as usize].stack.push(LH::LSpan { node });
+                    self.poll_nodes.push(tk.node);
+                    eop = true;
+                }
+                self.run_inner(idx, t, inner)?;
+                if eop {
+                    self.pop_handle(t, op, None)?;
+                }
+                let completes = match kind {
+                    PollKind::Poll | PollKind::PollNext | PollKind::PollNextItem | PollKind::PollClose => *ready,
+                    _ => false,
+                };
+                if guard_pushed {
+                    // the scope of the call ends with the call: what it recorded is submitted,
+                    // and only then (on completion) the span finishes
+                    self.pop_handle(t, op, None)?;
+                }
+                if completes {
+                    if let SlotM::Task(tkm) = self.slot(*task) {
+                        tkm.done = true;
+                        if let Some(sp) = tkm.span.take() {
+                            self.finish_span(sp, op);
+                        }
+                    }
+                    self.final_polls.push(op);
+                }
+                if self.threads[t as usize].stack.len() != depth {
+                    return err("poll must be balanced");
+                }
+            }
+            Op::DropTask { task } => {
+                let tk = match std::mem::replace(self.slot(*task), SlotM::Gone) {
+                    SlotM::Task(tk) => tk,
+                    other => {
+                        *self.slot(*task) = other;
+                        return err("no task in slot");
+                    }
+                };
+                if let Some(sp) = tk.span {
+                    self.finish_span(sp, op);
+                }
+            }
+            _ => return err("not supported yet"),
+        }
+        Ok(())
     }
 }
